@@ -276,6 +276,8 @@ def crash_family(res, ctx, tag, kinds, n_quick, n_thorough, io_mix=(0, 0, 0, 0, 
         nsteps = rng.choice([8, 14, 20]) if ctx.quick else rng.choice([10, 20, 30])
         if io == 1:
             nsteps = 6 if ctx.quick else 10    # every recovery of an mmap image reads its 1 GiB zero extension
+            if kind == "merge-multi":
+                kind = "merge"                 # (the multi-file merge workloads have hundreds of crash points: hours under mmap)
         if kind == "merge-multi":
             ops, cfg = crashcheck.merge_workload(rng, io=io, double=(i % 2 == 0))
         else:
